@@ -6,6 +6,8 @@
 #include "pv.h"
 #include <sys/mman.h>
 #include <unistd.h>
+#include <pthread.h>
+#include <signal.h>
 
 static long g_ps; static uint8_t* g_ro;      /* read-only input area: [data page(s)][PROT_NONE guard] */
 #define RO_PAGES 20
@@ -182,6 +184,39 @@ static void run_huge(uint64_t idx, pv_rng* rng) {
     munmap(big, n + 1);
 }
 
+/* the same calls on a thread whose stack is as small as the default of a mainstream C library (musl: 128 KiB; here
+ * 96 KiB to leave room for the monitors): stated assumption "an API call needs well under 96 KiB of stack" */
+#define SMALL_STACK (96 * 1024)
+typedef struct ssjob { pv_world* w; const char* str; size_t len; unsigned coin; int lang; pv_rng rng; } ssjob;
+static void* ss_thread(void* p) {
+    ssjob* j = p; pv_w = j->w;
+    stack_t alt; alt.ss_sp = malloc(1 << 15); alt.ss_size = 1 << 15; alt.ss_flags = 0; sigaltstack(&alt, NULL);       /* so that a stack overflow is reported, not just fatal */
+    phrase_calls(j->str, j->len, j->coin, j->lang, "small-stack", &j->rng, false, false);
+    polyseed_data* s = NULL; pv_mseed m; pv_gen_mseed(&j->rng, 3, true, &m);
+    uint8_t* img = malloc(32); pv_m_image(&m, img);
+    if (pv_api_load(img, &s) == POLYSEED_OK) {
+        char* out = malloc(POLYSEED_STR_SIZE);
+        for (int l = 0; l < pv_nlangs; ++l) if (pv_langs[l].lib) pv_api_encode(s, pv_langs[l].lib, j->coin, out);
+        pv_api_crypt(s, j->str); uint8_t* key = malloc(32); pv_api_keygen(s, j->coin, 32, key); free(key);
+        pv_api_free(s); free(out);
+    }
+    free(img);
+    alt.ss_flags = SS_DISABLE; sigaltstack(&alt, NULL);
+    return NULL;
+}
+static uint64_t n_small(void) { return pv_scaled(3000, 60000); }
+static void run_small(uint64_t idx, pv_rng* rng) {
+    (void)idx;
+    pv_gstr g; pv_gen_string(rng, 3, &g);
+    if (g.len > 4000) { pv_gstr_free(&g); return; }
+    ssjob j = { pv_w, g.s, g.len, g.coin, g.lang, *rng };
+    pthread_attr_t a; pthread_attr_init(&a); pthread_attr_setstacksize(&a, SMALL_STACK);
+    pthread_t t;
+    if (pthread_create(&t, &a, ss_thread, &j) == 0) { pthread_join(t, NULL); PV_COUNT("small_stack.threads", 1); }
+    pthread_attr_destroy(&a);
+    pv_gstr_free(&g);
+}
+
 static uint64_t n_passwords(void) { return pv_scaled(40000, 1000000); }
 static void run_passwords(uint64_t idx, pv_rng* rng) {
     pv_mseed m; pv_gen_mseed(rng, 3, true, &m);
@@ -237,6 +272,6 @@ static void run_buffers(uint64_t idx, pv_rng* rng) {
 }
 
 int main(int argc, char** argv) {
-    static const pv_section secs[] = { { "phrases", n_phrases, run_phrases }, { "flood", n_flood, run_flood }, { "huge", n_huge, run_huge }, { "passwords", n_passwords, run_passwords }, { "buffers", n_buffers, run_buffers } };
-    return pv_main(argc, argv, "C14", secs, 5, init, NULL);
+    static const pv_section secs[] = { { "phrases", n_phrases, run_phrases }, { "flood", n_flood, run_flood }, { "huge", n_huge, run_huge }, { "smallstack", n_small, run_small }, { "passwords", n_passwords, run_passwords }, { "buffers", n_buffers, run_buffers } };
+    return pv_main(argc, argv, "C14", secs, 6, init, NULL);
 }
